@@ -64,7 +64,7 @@ func c11Tier(tier string) (seq, conc int) {
 	if tier == "thorough" {
 		return 100000, 2000
 	}
-	return 1500, 60
+	return 3000, 120
 }
 
 // deepEq compares two query answers.
